@@ -28,7 +28,7 @@ HEADS = [b'#.change:', b'#.change', b'#.change :', b' #.change:', b'#.CHANGE:', 
 OPTS = [b'', b' a=b', b' a=1', b' a=1, b=2', b' a=b,c=d', b' a=b,  c=d', b'  a=b', b' a=b ', b' a', b' =b', b' a=',
         b' a=-1', b' a=1_0', b' a=007', b' a=--1', b' a=1.0', b' a=text/plain', b' 1a=b', b' a-b_c=d', b' a=b=c',
         b' length=3', b' a=1, a=2', b' a=+1', b' a=+0', b' a=-+1', b' a=1e3', b' a=0x10', b' a=0b1', b' a=1.', b' a=.5',
-        b' a=1_', b' a=_1', b' a=1__0', b' a=\xd9\xa1', b' a=00', b' a=-0', b' a=-', b' a=+', b' a=\xc3\xa9', b' \xc3=a', b' a=' + b'9' * 4300, b' a=' + b'9' * 4301]
+        b' 1.0=x', b' a=1, 1=a', b' a=b/c, b/c=1', b' x=1.0, 1.0=y', b' k=9a, 9a=k', b' a=b, b=a', b' a=1_', b' a=_1', b' a=1__0', b' a=\xd9\xa1', b' a=00', b' a=-0', b' a=-', b' a=+', b' a=\xc3\xa9', b' \xc3=a', b' a=' + b'9' * 4300, b' a=' + b'9' * 4301]
 
 
 def expected(line):
@@ -74,6 +74,11 @@ class Spec(object):
                 k = rng.choice(['a', 'key', 'line_endings', 'X-y', 'a1', '9a', 'a b', '']).encode()
                 v = rng.choice(['b', '12', '-3', '1_000', 'text/plain', 'utf-8', 'a.b', 'a+b', '', 'x y', '0x10', '١٢', '+3', '+0',
                                 ' 7', '7 ', '1e3', '0o7', '--1', '٣']).encode('utf-8')
+                if pairs and rng.random() < 0.2:
+                    # a key that is the byte string of an earlier value (of this line, or the
+                    # `1.0` of the main header before it): having been seen as a value does not
+                    # make it a key
+                    k = rng.choice([p_.split(b'=', 1)[1] for p_ in pairs] + [b'1.0'])
                 pairs.append(k + b'=' + v)
             sep = rng.choice([b', ', b', ', b', ', b',', b' , ', b',  '])
             yield rng.choice(HEADS[:1] * 6 + HEADS) + (b' ' + sep.join(pairs) if pairs else b'')
